@@ -14,6 +14,9 @@
                                ρ(Z) = 1/(Z·R·T/P − Σ y·vt) · Σ y·M — the model's `density` on the lists;
     * `gen_gas_not_denser`     gas row ≤ liquid row of the regenerated `density` under the hypotheses of
                                `gas_not_denser` (positive translated liquid molar volume, non-negative molar mass).
+    * `gen_volume_trans_refines` entry i of the regenerated `volume_trans` is the model's `volTransLD` (first user
+                               Peneloux coefficient zero) or `volTransUser` (otherwise) of component i;
+    * `gen_density_refines`    the two rows of the regenerated `density` are `Model.Eos.density` at the selected roots.
   Helper lemmas: `namespace TamocV.Lemmas.C01Fug` (this file).
 -/
 import TamocV.Props.C01Gen
@@ -190,6 +193,83 @@ theorem gen_gas_not_denser (cr : List ℝ → List ℝ × List ℝ) (T P : ℝ) 
   refine ⟨_, _, gen_density_rows cr T P m M Pc Tc Vc w δ A B G cd Cp CpT r0 r1 r2 i0 i1 i2 hcr, ?_, ?_⟩
   · exact mul_le_mul_of_nonneg_right (one_div_le_one_div_of_le hν hνle) hSM
   · exact mul_nonneg (one_div_nonneg.mpr (lt_of_lt_of_le hν hνle).le) hSM
+
+/-- **Refinement of the regenerated `volume_trans`**: entry i is the hand model's Lin–Duan translation
+    `volTransLD` of component i when the first user Peneloux coefficient is zero, and the user shift
+    `volTransUser` otherwise — the branch test of the source (`C_pen[0] == 0`) included. -/
+theorem gen_volume_trans_refines (T P : ℝ) (m M Pc Tc Vc Cp CpT : List ℝ) (n i : ℕ)
+    (hPc : Pc.length = n) (hTc : Tc.length = n) (hVc : Vc.length = n) (hCp : Cp.length = n) (hCpT : CpT.length = n)
+    (hi : i < n) :
+    (EosFullPy.volume_trans T P m M Pc Tc Vc Cp CpT).getD i 0
+      = if Cp.getD 0 0 = 0 then volTransLD T (Pc.getD i 0) (Tc.getD i 0) (Vc.getD i 0)
+        else volTransUser T (Cp.getD i 0) (CpT.getD i 0) := by
+  have h1 : i < Pc.length := by omega
+  have h2 : i < Tc.length := by omega
+  have h3 : i < Vc.length := by omega
+  have h4 : i < Cp.length := by omega
+  have h5 : i < CpT.length := by omega
+  have h00 : (0.0:ℝ) = 0 := by norm_num
+  have h10 : (1.0:ℝ) = 1 := by norm_num
+  simp only [EosFullPy.volume_trans, Num.real_ofSci, Num.real_zero, Num.real_ofNat, h00]
+  by_cases hc : Cp.getD 0 0 = 0
+  · rw [if_pos hc, if_pos (by rw [hc]; exact ⟨le_refl _, le_refl _⟩)]
+    simp [volTransLD, RU, List.getD_eq_getElem?_getD, List.getElem?_map, List.getElem?_zipWith,
+      List.getElem?_eq_getElem h1, List.getElem?_eq_getElem h2, List.getElem?_eq_getElem h3,
+      Num.real_exp, Num.real_abs, Num.real_ofSci, h10]
+    have hR : (8.314510:ℝ) = 8.31451 := by norm_num
+    rw [hR]
+  · rw [if_neg hc, if_neg (fun h => hc (le_antisymm h.1 h.2))]
+    simp [volTransUser, List.getD_eq_getElem?_getD, List.getElem?_map, List.getElem?_zipWith,
+      List.getElem?_eq_getElem h4, List.getElem?_eq_getElem h5, Num.real_ofSci]
+
+theorem gen_volume_trans_length (T P : ℝ) (m M Pc Tc Vc Cp CpT : List ℝ) (n : ℕ)
+    (hPc : Pc.length = n) (hTc : Tc.length = n) (hVc : Vc.length = n) (hCp : Cp.length = n) (hCpT : CpT.length = n) :
+    (EosFullPy.volume_trans T P m M Pc Tc Vc Cp CpT).length = n := by
+  simp only [EosFullPy.volume_trans]
+  split_ifs <;> simp [hPc, hTc, hVc, hCp, hCpT]
+
+theorem zipWith_mul_sum (a b : List ℝ) (n : ℕ) (ha : a.length = n) (hb : b.length = n) :
+    (List.zipWith (fun x y => x * y) a b).sum = ∑ i ∈ range n, a.getD i 0 * b.getD i 0 := by
+  rw [list_sum_eq_range _ n (by simp [ha, hb])]
+  apply Finset.sum_congr rfl
+  intro i hi
+  exact getD_zipWith a b n i ha hb (mem_range.mp hi)
+
+/-- **Refinement of the regenerated `density`**: its two rows are the hand model's `density` at the selected
+    compressibility factors, on the refined mole fractions and the per-component translation of
+    `gen_volume_trans_refines`. With `gen_volume_trans_refines` and `mole_fraction_refines` the theorem
+    `gas_not_denser` of the model therefore speaks about the regenerated routine. -/
+theorem gen_density_refines (cr : List ℝ → List ℝ × List ℝ) (T P : ℝ) (m M Pc Tc Vc w : List ℝ) (δ A B G : List (List ℝ))
+    (cd : ℝ) (Cp CpT : List ℝ) (r0 r1 r2 i0 i1 i2 : ℝ) (n : ℕ) (hcr : ∀ p, cr p = ([r0, r1, r2], [i0, i1, i2]))
+    (hm : m.length = n) (hM : M.length = n) (hPc : Pc.length = n) (hTc : Tc.length = n) (hVc : Vc.length = n)
+    (hCp : Cp.length = n) (hCpT : CpT.length = n) :
+    let c := EosFullPy.coefs T P m M Pc Tc w δ A B G cd
+    let s := selectZ c.2.1 [(r0, i0), (r1, i1), (r2, i2)]
+    let y := moleFraction n (ofL m) (ofL M)
+    let vt := ofL (EosFullPy.volume_trans T P m M Pc Tc Vc Cp CpT)
+    EosFullPy.density cr T P m M Pc Tc Vc w δ A B G cd Cp CpT
+      = [[TamocV.Model.Eos.density n T P s.1 y (ofL M) vt], [TamocV.Model.Eos.density n T P s.2 y (ofL M) vt]] := by
+  intro c s y vt
+  have hy := mole_fraction_length m M n hm hM
+  have hvt := gen_volume_trans_length T P m M Pc Tc Vc Cp CpT n hPc hTc hVc hCp hCpT
+  have hrows := gen_density_rows cr T P m M Pc Tc Vc w δ A B G cd Cp CpT r0 r1 r2 i0 i1 i2 hcr
+  simp only [] at hrows
+  have hR : (RU : ℝ) = 8.31451 := RU_real
+  have e1 : ∑ i ∈ range n, y i * vt i = (List.zipWith (fun x y => x * y) (EosFullPy.mole_fraction m M)
+      (EosFullPy.volume_trans T P m M Pc Tc Vc Cp CpT)).sum := by
+    rw [zipWith_mul_sum _ _ n hy hvt]
+    apply Finset.sum_congr rfl
+    intro i hi
+    rw [mole_fraction_refines m M n i hm hM (mem_range.mp hi)]
+    rfl
+  have e2 : ∑ i ∈ range n, y i * ofL M i = (List.zipWith (fun x y => x * y) (EosFullPy.mole_fraction m M) M).sum := by
+    rw [zipWith_mul_sum _ _ n hy hM]
+    apply Finset.sum_congr rfl
+    intro i hi
+    rw [mole_fraction_refines m M n i hm hM (mem_range.mp hi)]
+    rfl
+  rw [hrows]
+  simp only [TamocV.Model.Eos.density, sumN_eq, hR, e1, e2, s, c, Num.real_one, Num.real_ofNat]
 
 end TamocV.Props.C01
 
